@@ -332,11 +332,17 @@ def run_traj(case):
             out.feat('excluded-boundary')
             return out
         try:
-            data = bytes(CompressedSegment(dur, *els).pack())
+            seg = CompressedSegment(dur, *els)
+            data = bytes(seg.pack())
         except Exception as e:  # noqa
             if not expect_raise:
                 out.fail('traj:segment:raises-in-range', '%r: %r' % (case, e))
             return out
+        if not expect_raise:
+            # the same segment object written a second time (a second trajectory slot, a second Crazyflie): same bytes
+            again = bytes(seg.pack())
+            if again != data:
+                out.fail('traj:segment:second-pack-differs', '%r: first pack %s, second pack of the same object %s' % (case, data.hex(), again.hex()))
         if expect_raise:
             out.fail('traj:segment:wrapped', '%r encoded as %s instead of raising' % (case, data.hex()))
             return out
